@@ -73,3 +73,9 @@ Print Assumptions C15_poly_evar.
 Theorem C15_poly_swap : forall (T : Type) (c : list T), poly_swap c = rev c /\ poly_swap (poly_swap c) = c.
 Proof. exact (fun T c => conj (poly_swap_is_rev c) (poly_swap_involutive c)). Qed.
 Print Assumptions C15_poly_swap.
+
+(* the public wrappers a_poly_eval / a_poly_evar / a_poly_swap (include/a/poly.h), for every length including 0 and 1 *)
+Theorem C15_poly_wrappers : forall c x,
+  poly_eval_w R_ops c x = pval c x /\ poly_evar_w R_ops c x = pval (rev c) x /\ poly_swap_w c = rev c.
+Proof. exact poly_wrappers_spec. Qed.
+Print Assumptions C15_poly_wrappers.
